@@ -21,17 +21,19 @@ func NewFilterTree() internaltypes.FilterTreeI {
 // Add a flow with specified filter to the filter tree
 func (f *FilterTree) AddFlow(flow internaltypes.FlowI) error {
 	filter := flow.GetFilter()
-	result := f.tree.Lookup(filter.GetURL())
-	if result.Match && result.NormalizedURL == filter.GetURL() {
+	// the node of this very URL, if a flow was already declared on it. A request-style
+	// Lookup can answer with a sibling (h.com/x/{id} for h.com/x/*) and the insert below
+	// would then replace the flows already stored on the URL.
+	if existingNode := f.tree.LookupDeclaredURL(filter.GetURL()); existingNode != nil {
 		log.Debug().Msgf("Adding %s flow to existing filter tree: %v",
 			flow.GetType().String(), filter.GetURL())
 		switch flow.GetType() {
 		case internaltypes.UserFlow:
-			return result.Value.addUserFlow(flow)
+			return existingNode.addUserFlow(flow)
 		case internaltypes.SystemFlowStart:
-			return result.Value.addSystemFlowStart(flow)
+			return existingNode.addSystemFlowStart(flow)
 		case internaltypes.SystemFlowEnd:
-			return result.Value.addSystemFlowEnd(flow)
+			return existingNode.addSystemFlowEnd(flow)
 		}
 	}
 	var filterNode *FilterNode
